@@ -26,7 +26,7 @@ accuracy; pandas semantics of the column reads.
 import ast
 
 from ..astutil import calls, call_name, kwarg, u
-from ..formula import extract, same, same_events, spec, _clip
+from ..formula import atoms_of, extract, same, same_events, spec, _clip
 from ..model import AnalysisError
 from ..paths import enumerate_paths
 from ..termflow import (
@@ -193,6 +193,22 @@ def rule_E1(ctx):
                 "the array reduced by log_sum_exp is %s, whose size does not derive from the genotype table" % _clip(show_key(base)),
                 construct=f.qualname, stmt="ll size",
             )
+            # one slot per genotype: the allocation's length is the length of the genotype table
+            allocs = [a for a in atoms_of(base, tag="call") if a[1] in ("np.ones", "np.zeros", "np.full", "np.empty", "numpy.ones", "numpy.zeros", "numpy.full", "numpy.empty") and a[2]]
+            if allocs:
+                from ..termflow import equivalent, poly_from_key, _is_polykey
+
+                n_key = allocs[0][2][0]
+                n_got = poly_from_key(n_key) if _is_polykey(n_key) else Poly.atom(n_key)
+                p0 = Poly.atom(("v", "P0"))
+                cands = [Poly.atom(("call", "len", (("attr", p0.key(), a),), ())) for a in ("cn", "mu", "log_pi")]
+                cands_k = [Poly.atom(("call", "len", (Poly.atom(("attr", p0.key(), a)).key(),), ())) for a in ("cn", "mu", "log_pi")]
+                fine = any(equivalent(n_got, c)[0] for c in cands + cands_k)
+                ctx.check(
+                    fine, "E1", name + ": the array has exactly one slot per genotype", f.where(),
+                    "the array reduced by log_sum_exp is allocated with %s slots, the loop fills one per row of the genotype table: the last genotypes are written out of bounds / left at their initial value" % _clip(show(n_got)),
+                    construct=f.qualname, stmt="ll length",
+                )
         same_events(ctx, "E1", name + ": pmf(n = a + b, x = b, ...) per genotype", f, ex.calls(pdf), sp.calls(pdf), "%s(...) calls" % pdf)
         pdf_events[name] = (f, ex.calls(pdf))
         ctx.analysed(f)
@@ -683,7 +699,7 @@ SELFTEST = [
     _v("E1-normal-weight-is-t", "break", "E1", _P, **_mix(_BB_TAIL, "population_prior[0] = 1 - t\n", "population_prior[0] = t\n")),
     # documented limit: the array is only required to be sized from the genotype table; an off-by-one in its
     # length (numba does not bounds-check the write) is a numeric fact about np.ones' argument that E1 does not decide
-    _v("E1-array-too-short", "break", "E1", _P, old=_MIX_HEAD + _BIN_TAIL, new=_MIX_HEAD.replace("ll = np.ones(C, dtype=np.float64)", "ll = np.ones(C - 1, dtype=np.float64)") + _BIN_TAIL, documented_limit=True),
+    _v("E1-array-too-short", "break", "E1", _P, old=_MIX_HEAD + _BIN_TAIL, new=_MIX_HEAD.replace("ll = np.ones(C, dtype=np.float64)", "ll = np.ones(C - 1, dtype=np.float64)") + _BIN_TAIL),
     _v("benign-E1-np-full", "benign", None, _P, **_mix(_BB_TAIL, "    ll = np.ones(C, dtype=np.float64) * np.inf * -1\n", "    ll = np.full(C, -np.inf)\n")),
     _v("benign-E1-precompute-n", "benign", None, _P, "        ll[c] = data.log_pi[c] + log_binomial_pdf(data.a + data.b, data.b, e_vaf)\n", "        n = data.b + data.a\n        ll[c] = log_binomial_pdf(n, data.b, e_vaf) + data.log_pi[c]\n"),
     _v("benign-E1-reorder-weights-with-columns", "benign", None, _P, old=_MIX_HEAD + _BB_TAIL, new=_MIX_HEAD.replace(
